@@ -427,6 +427,39 @@ def read (data : Bytes) : Option (List Obj) :=
         | some st =>
           if st.refBound ≤ st.objs.length ∧ 1 < st.objs.length then some st.objs else none
 
+/-! ### the bound on the number of struct-array elements (`struct_elements_left`)
+
+Not part of `read` (see `props/C16.json`, assumptions): the reader starts with one element per byte of
+the tag file and does `struct_elements_left.checked_sub(array_len)?` for every STRUCT array it reads,
+nested ones included.  The counter only ever decreases and nothing else depends on it, so the bounded
+reader returns what `read` returns when the struct elements of the whole file (every `Value.obj`: the
+elements are stored in line) number at most `data.length`, and `None` otherwise.  `readBounded` is
+used for damaged files (correspondence family `mut`), where the bound can trip. -/
+
+mutual
+/-- the struct-array elements stored in a value, nested ones included -/
+def Value.structElems : Value → Nat
+  | .arr l => structElemsList l
+  | .obj _ data => 1 + structElemsData data
+  | _ => 0
+def structElemsList : List Value → Nat
+  | [] => 0
+  | v :: r => v.structElems + structElemsList r
+def structElemsData : List (Nat × Value) → Nat
+  | [] => 0
+  | (_, v) :: r => v.structElems + structElemsData r
+end
+
+def structElemsObjs : List Obj → Nat
+  | [] => 0
+  | o :: r => structElemsData o.data + structElemsObjs r
+
+/-- `HavokBinaryTagFileReader::read` with the bound `struct_elements_left` -/
+def readBounded (data : Bytes) : Option (List Obj) :=
+  match read data with
+  | none => none
+  | some objs => if structElemsObjs objs ≤ data.length then some objs else none
+
 /-! ### object access and the skeleton extraction -/
 
 /-- `HavokObject::get`: position of the first member of that name in `members()`, then the map entry -/
